@@ -301,6 +301,9 @@ func payload(r *hx.Rand, n int) []byte {
 	return p
 }
 
+// opSuffix is appended to the next `w` op line (" edge=maxpkt" marks the recorded-finding op class).
+var opSuffix string
+
 func emitW(g *hx.Gen, r *hx.Rand, c, m string, seq uint32, lens []int) {
 	ks, is, ms, ok := ssh.VerifCipherSizes(c, m)
 	if !ok {
@@ -328,8 +331,8 @@ func emitW(g *hx.Gen, r *hx.Rand, c, m string, seq uint32, lens []int) {
 		}
 		g.Stat("ctr.iv-carry")
 	}
-	g.Emit("w c=%s m=%s key=%s iv=%s mkey=%s seq=%d p=%s rnd=%s", c, m, hx.Hex(r.Bytes(ks)), hx.Hex(iv), hx.Hex(r.Bytes(ms)),
-		seq, hexList(ps), hx.Hex(r.Bytes(32*len(lens))))
+	g.Emit("w c=%s m=%s key=%s iv=%s mkey=%s seq=%d p=%s rnd=%s%s", c, m, hx.Hex(r.Bytes(ks)), hx.Hex(iv), hx.Hex(r.Bytes(ms)),
+		seq, hexList(ps), hx.Hex(r.Bytes(32*len(lens))), opSuffix)
 	g.Stat("cipher." + c)
 	if m != "-" {
 		g.Stat("mac." + m)
@@ -400,14 +403,41 @@ func gen(g *hx.Gen) {
 		emitW(g, r, pr[0], pr[1], 0xffffffff-uint32(r.Intn(3)), []int{r.Range(1, 60), r.Range(1, 60), r.Range(1, 60), r.Range(1, 60), r.Range(1, 60)})
 		g.Stat("seq.wraps")
 	}
+	// The upper end of the statement's payload range. Largest payload each family's own reader still accepts
+	// (ordinary ops, pin the threshold) and the first one it refuses plus maxPacket itself (op class edge=maxpkt:
+	// the driver answers per the property statement, the code's err:len is the recorded finding
+	// maxpacket-payload-not-readable).
+	//   stream E&M / none / CBC (AES, 3DES): last readable 262135, refused 262136..262144
+	//   stream EtM / GCM / chacha20-poly1305: last readable 262139, refused 262140..262144
+	edge := []struct {
+		c, m   string
+		lastOK int
+	}{
+		{"aes128-ctr", "hmac-sha2-256", 262135}, {"aes128-ctr", "hmac-sha2-256-etm@openssh.com", 262139},
+		{"aes128-gcm@openssh.com", "-", 262139}, {"chacha20-poly1305@openssh.com", "-", 262139},
+		{"aes128-cbc", "hmac-sha1", 262135}, {"3des-cbc", "hmac-sha1-96", 262135}, {"none", "-", 262135},
+	}
+	for i, e := range edge {
+		if g.Thorough() || i%3 == int(g.R.U64()%3) {
+			emitW(g, r, e.c, e.m, r.U32(), []int{e.lastOK})
+			g.Stat("edge.last-readable")
+		}
+		opSuffix = " edge=maxpkt"
+		emitW(g, r, e.c, e.m, r.U32(), []int{e.lastOK + 1})
+		if g.Thorough() || i%2 == 0 {
+			emitW(g, r, e.c, e.m, r.U32(), []int{maxPacket})
+		}
+		opSuffix = ""
+		g.Stat("edge.maxpkt")
+	}
 	big := allPairs()
 	hx.Shuffle(r, big)
-	nbig := 6
+	nbig := 2
 	if g.Thorough() {
 		nbig = len(big)
 	}
 	for _, pr := range big[:nbig] {
-		emitW(g, r, pr[0], pr[1], r.U32(), []int{r.PickInt(maxPacket, maxPacket-1, maxPacket-30, maxPacket-19, maxPacket-21, maxPacket-12), 5})
+		emitW(g, r, pr[0], pr[1], r.U32(), []int{r.PickInt(maxPacket-10, maxPacket-30, maxPacket-19, maxPacket-21, maxPacket-12, maxPacket-9), 5})
 		g.Stat("len.maxPacket-region")
 	}
 	for _, c := range []string{"aes128-ctr", "none", "aes128-gcm@openssh.com", "aes128-cbc", "chacha20-poly1305@openssh.com"} {
